@@ -72,6 +72,13 @@ def run(ctx):
                 viol("below-minimum", f"sampled mass {m.min():.4g} below the requested minimum 10^{cfg['log_mmin']}")
             if np.any(np.diff(m) > 0):
                 viol("not-descending", "sort=True does not return masses in descending order")
+            # "when sorting is requested": any true flag (a numpy bool from a comparison, 1) requests it, any false one (0, np.False_) does not
+            for flag in (np.True_, 1, np.bool_(N > 0), np.array(True)):
+                np.random.seed(seed)
+                mt, _ht = sample_mf(min(N, 20000), cfg["log_mmin"], sort=flag, **kw)
+                if np.any(np.diff(mt) > 0):
+                    viol("not-descending", f"sort={flag!r} ({type(flag).__name__}) does not return masses in descending order ({int(np.sum(np.diff(mt) > 0))} of {len(mt) - 1} neighbouring pairs ascending)", {"sort": repr(flag)})
+                    break
             np.random.seed(seed)
             m2, h2 = sample_mf(N, cfg["log_mmin"], sort=True, **kw)
             if not np.array_equal(m, m2):
